@@ -227,9 +227,17 @@ def run_case(case, ctx):
             b = rng.randrange(a + 1, nI + 1)
             c = rng.randrange(nX)
             d = rng.randrange(c + 1, nX + 1)
+            def crd(ax, lo, hi):
+                stop = ax[hi] if hi < len(ax) else ax[-1] + (ax[-1] - ax[-2] if len(ax) > 1 else 1)
+                return (int(ax[lo]), int(stop))
+            by_coords = int(case['id'].split(':')[1]) % 2 == 1 and nI >= 2 and nX >= 2
             with env.quiet():
                 with SgzCropper(out) as cr:
-                    cr.write_cropped_file_by_indexes(o2, (a, b), (c, d), None)
+                    if by_coords:
+                        # by line NUMBERS (large ones included: neighbouring numbers differ by far less than any relative tolerance)
+                        cr.write_cropped_file_by_coords(o2, crd(s_il, a, b), crd(s_xl, c, d), None)
+                    else:
+                        cr.write_cropped_file_by_indexes(o2, (a, b), (c, d), None)
             A, B, C, D = a // 4 * 4, min(nI, -(-b // 4) * 4), c // 4 * 4, min(nX, -(-d // 4) * 4)
             with SgzReader(o2) as r:
                 compare('after-crop', r.ilines, r.xlines, r.zslices, r.tracecount, r.structured, s_il[A:B], s_xl[C:D], s_z, (B - A) * (D - C), bad)
